@@ -48,6 +48,10 @@ CHECKS = {
    text="Programs of a small template language (BEGIN / up to 4 rules with patterns NR==k, FNR==k, $0~/lit/, v==k and ranges / END; bodies of traces, the six getline forms, next, nextfile, exit [n], assignments, the same under if, in loops and inside user functions, BEGIN-time edits of ARGV/ARGC) run over a simulated multi-file world (operand lists mixing files - some empty or without final newline -, '-', empty strings, var=value, missing files; every source delivered under a drawn schedule; default and CSV input mode) and are compared step by step with an executable model of the input cursor (operand cursor, NR/FNR/FILENAME, which getline form sets what, range flags, next/nextfile/exit unwinding through functions, END after exit with the last record, exit status). This samples the template family, not all AWK programs (that would need a reference AWK evaluator, another family).",
    note="Relaxations: cmd | getline may or may not count in NR; FILENAME for standard input is taken from its first observation; main input on stdin is not combined with getline < \"-\" or with commands that inherit stdin.",
    tech="deterministic simulation: generated operation histories over a simulated file world vs executable input-cursor model"),
+ "C13": dict(cat="fault_enumeration", ref="5.5",
+   text="Generated programs over output operations (print/printf to stdout, '-', /dev/stdout, /dev/stderr, files with > and >>, commands with |; close, fflush, system, getline from names that are or were outputs, cmd | getline; exit, run-time errors; loops, functions, per-record rules, END) run against a simulated world: Config.Output as a bare sink, behind a real bufio.Writer of drawn size, or a sink with its own Flush; real files behind the OpenFile seam; stub child processes (sinks, talkers, sources, system children with statuses and signals) that report what they received over a control socket. Faults: standard output failing from byte k ('failat' scenarios enumerate every k of the fault-free output), flush-only failure, a file on /dev/full, a command that exits before reading. The destinations (file contents, bytes each command instance received, exact stdout stream incl. synchronous child output, /dev/stderr tokens, return values of close/fflush/system/getline, exit status, error/no-error) are compared with a reference model driven by the observed operation trace. Sampling plus enumeration of failure offsets.",
+   note="The model is driven by the trace of started operations (control flow is not re-evaluated). Children that write to the shared stdout concurrently with the program are checked by content projection (letters vs digits). Known open finding F-C13-2 (flush-only failure swallowed). Files on /dev/full are excluded from content comparison.",
+   tech="deterministic simulation: generated output histories x write-failure offsets x stub children vs trace-driven destination model"),
 }
 ORDER = ["C07","C08","C11","C12","C13","C14","C15","C19"]
 checks = []
